@@ -1136,7 +1136,7 @@ func Retract(vm *VM, t Term, k Cont, env *Env) *Promise {
 			return Unify(vm, t, raw, func(env *Env) *Promise {
 				// The database may have changed since the call. Look for the very clause we unified with.
 				for j := range u.clauses {
-					if id(u.clauses[j].raw) != id(c.raw) {
+					if !u.clauses[j].is(&c) {
 						continue
 					}
 					n := 1 // with its alternatives if the body is a disjunction.
